@@ -5,7 +5,10 @@
 
 use crate::{TxId, scheduler::PublishedCursorReader};
 use ahash::AHashSet as HashSet;
+#[cfg(not(grevm_verif))]
 use parking_lot::Mutex;
+#[cfg(grevm_verif)]
+type Mutex<T> = crate::verif::sync::Mutex<T, { crate::verif::group::DEP }>;
 use std::sync::atomic::{AtomicUsize, Ordering};
 
 struct DependentState {
@@ -40,23 +43,39 @@ impl TxDependency {
     }
 
     pub(crate) fn next(&self) -> Option<TxId> {
-        if self.index.load(Ordering::Relaxed) >= self.num_txs {
+        vpoint!(DEP, "DN_Load");
+        let loaded = self.index.load(Ordering::Relaxed);
+        vemit!(DEP, "DN_Load", "index" => loaded);
+        if loaded >= self.num_txs {
             return None;
         }
+        vpoint!(DEP, "DN_FetchAdd");
         let index = self.index.fetch_add(1, Ordering::Relaxed);
+        vemit!(DEP, "DN_FetchAdd", "index" => index);
         if index >= self.num_txs {
             return None;
         }
         let mut state = self.dependent_state[index].lock();
         if state.onboard && state.dependency.is_none() {
             state.onboard = false;
+            vemit!(DEP, "DN_Take", "tx" => index, "ok" => true);
             return Some(index)
         }
+        vemit!(DEP, "DN_Take", "tx" => index, "ok" => false);
         None
     }
 
     pub(crate) fn index(&self) -> usize {
         self.index.load(Ordering::Relaxed)
+    }
+
+    /// `(onboard, dependency, reverse edges)` of one transaction, for the verification probes.
+    #[cfg(grevm_verif)]
+    pub(crate) fn verif_snapshot(&self, txid: TxId) -> (bool, Option<TxId>, Vec<TxId>) {
+        let mut affects: Vec<TxId> = self.affect_txs[txid].lock().iter().copied().collect();
+        affects.sort_unstable();
+        let state = self.dependent_state[txid].lock();
+        (state.onboard, state.dependency, affects)
     }
 
     /// Clear transactions waiting on `txid`.
@@ -66,24 +85,47 @@ impl TxDependency {
     pub(crate) fn remove(&self, txid: TxId, pop_next: bool) -> Option<TxId> {
         let mut next = None;
         let mut affects = self.affect_txs[txid].lock();
+        vemit!(DEP, "DR_Begin", "tx" => txid, "pop" => pop_next,
+            "affects" => { let mut a: Vec<usize> = affects.iter().copied().collect(); a.sort_unstable(); a });
         if affects.is_empty() {
             return next;
         }
         for &tx in affects.iter() {
             let mut dependent = self.dependent_state[tx].lock();
+            #[cfg(grevm_verif)]
+            let mut action = "stale";
             if dependent.dependency == Some(txid) {
                 dependent.dependency = None;
+                #[cfg(grevm_verif)]
+                {
+                    action = "cleared";
+                }
                 if dependent.onboard {
-                    if pop_next && tx == txid + 1 && self.index.load(Ordering::Relaxed) > tx {
+                    if pop_next && tx == txid + 1 && {
+                        vpoint!(DEPX, "DX_Load");
+                        self.index.load(Ordering::Relaxed) > tx
+                    } {
                         dependent.onboard = false;
                         next = Some(tx);
+                        #[cfg(grevm_verif)]
+                        {
+                            action = "handoff";
+                        }
                     } else {
+                        vpoint!(DEPX, "DX_Min");
                         self.index.fetch_min(tx, Ordering::Relaxed);
+                        #[cfg(grevm_verif)]
+                        {
+                            action = "rewind";
+                        }
                     }
                 }
             }
+            vemit!(DEP, "DR_Dep", "tx" => txid, "dep" => tx, "action" => action);
         }
+        vpoint!(DEP, "DR_End");
         affects.clear();
+        vemit!(DEP, "DR_End", "tx" => txid, "next" => next);
         next
     }
 
@@ -94,8 +136,10 @@ impl TxDependency {
             let mut state = self.dependent_state[next].lock();
             if state.onboard {
                 state.dependency = None;
+                vpoint!(DEPX, "DX_Min");
                 self.index.fetch_min(next, Ordering::Relaxed);
             }
+            vemit!(DEP, "DC_Commit", "tx" => txid, "released" => state.onboard);
         }
     }
 
@@ -106,6 +150,7 @@ impl TxDependency {
     /// immediately; otherwise committing `txid - 1` releases it through [`Self::commit`].
     pub(crate) fn key_tx(&self, txid: TxId, commit_idx: PublishedCursorReader<'_>) {
         let mut state = self.dependent_state[txid].lock();
+        vpoint!(DEPX, "DX_Committed");
         if txid > commit_idx.get() {
             state.dependency = Some(txid);
         }
@@ -113,8 +158,11 @@ impl TxDependency {
             state.onboard = true;
         }
         if state.dependency.is_none() {
+            vpoint!(DEPX, "DX_Min");
             self.index.fetch_min(txid, Ordering::Relaxed);
         }
+        vemit!(DEP, "DK_KeyTx", "tx" => txid, "committed" => commit_idx.get(),
+            "dep" => state.dependency);
     }
 
     /// Add one scheduling predecessor, or make `txid` eligible when no predecessor is needed.
@@ -144,15 +192,23 @@ impl TxDependency {
                 dep_state.onboard = true;
             }
             if dep_state.dependency.is_none() {
+                vpoint!(DEPX, "DX_Min");
                 self.index.fetch_min(dep_id, Ordering::Relaxed);
             }
+            vemit!(DEP, "DA_Add", "tx" => txid, "dep" => Some(dep_id),
+                "reoffer" => dep_state.dependency.is_none());
         } else {
             let mut state = self.dependent_state[txid].lock();
+            #[cfg(grevm_verif)]
+            let was_onboard = state.onboard;
             if !state.onboard {
                 state.onboard = true;
                 state.dependency = None;
+                vpoint!(DEPX, "DX_Min");
                 self.index.fetch_min(txid, Ordering::Relaxed);
             }
+            vemit!(DEP, "DA_Add", "tx" => txid, "dep" => Option::<usize>::None,
+                "reoffer" => !was_onboard);
         }
     }
 }
